@@ -164,6 +164,17 @@ def archetypes(tier, seed):
         out.append(homo(rng, d, ru=i % len(RU_DIRECTED)))
         out.append(homo(rng, d, ru=(i + 3) % len(RU_DIRECTED), start_end=True))
     out.append(homo(rng, dists[0], ru=0, idn=1))
+    out.append(homo(rng, dists[1], ru=0, idn=0))          # id 0 is a legal id (and falsy in Python): plain prefix / suffix get their descriptors inserted
+    b0 = block(rng, dists[0], dists[1], connector="CO")
+    for e in b0["elements"]:
+        if isinstance(e, dict):
+            e["left"]["id"] = e["right"]["id"] = 0
+            for t in e["repeat"]:
+                for p_ in t:
+                    if isinstance(p_, dict):
+                        p_["id"] = 0
+    b0["archetype"] = "block-connector-id-0"
+    out.append(b0)
     out.append(homo(rng, dists[1], ru=1, w1=2, w2=0.5))
     out.append(homo(rng, dists[2], ru=6, prefix="[H]", suffix="C(C)CC(c1ccccc1)c1ccccc1"))
     out.append(random_copolymer(rng, dists[2]))
